@@ -382,8 +382,18 @@ public:
           o["n"] = MD->getDeclName().getAsString();
         o["qn"] = plainQualifiedName(MD);
         o["arrow"] = E->isArrow();
-        if (isa<FieldDecl>(MD))
-          o["mk"] = "field";
+        if (const auto* FDm = dyn_cast<FieldDecl>(MD))
+          {
+            o["mk"] = "field";
+            // const integral member with an in-class initialiser: record the constant
+            if (FDm->getType().isConstQualified() && FDm->getType()->isIntegralOrEnumerationType() && FDm->hasInClassInitializer()
+                && FDm->getInClassInitializer() && !FDm->getInClassInitializer()->isValueDependent())
+              {
+                Expr::EvalResult R;
+                if (FDm->getInClassInitializer()->EvaluateAsInt(R, Ctx))
+                  o["cv"] = R.Val.getInt().getExtValue();
+              }
+          }
         else if (isa<CXXMethodDecl>(MD))
           o["mk"] = "method";
         else if (isa<VarDecl>(MD))
